@@ -35,6 +35,14 @@ const preludeBase = `(set-logic ALL)
 (declare-fun pl_len (Val) Int)
 (declare-fun pl_elem (Val Int) Val)
 (declare-fun pl_ptr (Val) Int)
+(declare-fun pl_deref (Val) Val)
+(declare-fun pl_mhas (Val Val) Bool)
+(declare-fun pl_mget (Val Val) Val)
+(declare-fun tassignable (Int Int) Bool)
+(declare-fun tnumin (Int) Int)
+(declare-fun tvariadic (Int) Bool)
+(declare-fun tin (Int Int) Int)
+(assert (forall ((t Int)) (! (tassignable t t) :pattern ((tassignable t t)))))
 (declare-fun tcomparable (Int) Bool)
 (assert (tcomparable 0))
 (assert (forall ((t Int)) (! (=> (or (and (<= 1 (kindof t)) (<= (kindof t) 16)) (= (kindof t) 18) (= (kindof t) 22) (= (kindof t) 24) (= (kindof t) 26)) (tcomparable t)) :pattern ((tcomparable t)))))
